@@ -74,6 +74,9 @@ const (
 	mxHost     = "mx.example.invalid"
 )
 
+// lastDataErr keeps the error of the latest Data call (used by the stand-alone reproductions).
+var lastDataErr error
+
 var tokRe = regexp.MustCompile(`\br(\d+)\b`)
 
 func tokensOf(s string) []int {
@@ -283,6 +286,7 @@ func runInBubble(b *Beh, tr *vtrace.Tracer) {
 	c := smtpconn.New()
 	c.Log = log.Logger{Out: log.NopOutput{}}
 	c.Dialer = d.dial
+	c.Hostname = clientName
 	c.CommandTimeout = cmdTimeout
 	c.SubmissionTimeout = subTimeout
 	c.ConnectTimeout = cmdTimeout
@@ -394,6 +398,9 @@ func runInBubble(b *Beh, tr *vtrace.Tracer) {
 		dur := int(time.Since(start) / time.Second)
 		synctest.Wait()
 		cls, code, id := classOf(res.err)
+		if st.C == "Data" {
+			lastDataErr = res.err
+		}
 		sts := res.sts
 		if sts == nil {
 			sts = []map[string]interface{}{}
